@@ -28,7 +28,7 @@ PickMask(o) == MaskSeq[((N * 7 + o * 3) % Len(MaskSeq)) + 1]
 PollSeq == SetToSeq(PollMasks)
 PickPoll == PollSeq[(N % Len(PollSeq)) + 1]
 ObjSeq == SetToSeq(Objs)
-PickObjs == {ObjSeq[k] : k \in {j \in 1..Len(ObjSeq) : ((N \div j) + j) % 2 = 0}}
+PickObjs == {ObjSeq[k] : k \in {j \in 1..Len(ObjSeq) : ((N \div j) + j) % 2 = 0 /\ ~obj[ObjSeq[j]].closed}}
 Gen(o) == (N + o) % 2
 Rep(max) == LET must == {o \in Objs : MustReport(o)}
             IN  IF Cardinality(must) <= max THEN must
@@ -48,6 +48,9 @@ GNext ==
           \/ Fill(o) /\ Log([op |-> "fill", o |-> o])
           \/ PeerDrain(o) /\ Log([op |-> "peer_drain", o |-> o])
           \/ ClosePeer(o) /\ N % 4 = 3 /\ Log([op |-> "close_peer", o |-> o])
+          \/ CloseWatched(o) /\ N % 5 = 4 /\ Log([op |-> "close_watched", o |-> o])
+          \/ CtlOnClosed(o) /\ Log([op |-> IF N % 3 = 0 THEN "register" ELSE IF N % 3 = 1 THEN "modify" ELSE "unregister",
+                                     o |-> o, data |-> DataOf(o, Gen(o)), mask |-> S2Q(PickMask(o))])
     \/ \E max \in 1..3, to \in Timeouts :
           /\ (to = -1 => SurelyReady)
           /\ Wait(max, Rep(max)) /\ Log([op |-> "wait", max |-> max, timeout |-> to])
